@@ -1,9 +1,83 @@
+/-
+  Driver module for the sumdb client (prefix `client.`): trace-validation ops.
+
+    client.pctrace <keys> <events>
+        keys   comma-separated key (natural number) of caller 0, 1, …
+        events comma-separated  c<i> (caller i entered Do) | f<i> (f started running for caller i) | r<i> (caller i returned)
+        -> `ok` if the sequence is the visible projection of a run of the parCache machine, else `reject <index>`
+
+    client.trace <p> <hostile:0|1> <c0> <threads> <events>
+        p        length of the common prefix of logs A and B
+        c0       initial stored head (`-` empty, `A<n>`, `B<n>`)
+        threads  comma-separated `<client>:<presented head>:<private 0|1>` for thread 0, 1, …  (`_` = no threads)
+        events   comma-separated  b.<t> | r.<t>.<head> | w.<t>.<old>.<new>.<o|c> | s.<t>.<older>.<newer> | e.<t>.<k>   (`_` = none)
+        -> `ok` / `reject <index>` from the latest-tree-head machine
+
+  No logic here: decode, call the model's checker, encode.
+-/
 import ModVerif.Drv.Util
+import ModVerif.Model.ParCache
+import ModVerif.Model.ClientTrace
 namespace ModVerif.Drv.Client
 open ModVerif ModVerif.Drv
 
-/-- stub: no ops modelled yet -/
+def listOf (s : String) : List String := if s == "_" then [] else s.splitOn ","
+
+def parseHead (s : String) : Option (Option ClientLatest.Head) :=
+  if s == "-" then some none
+  else
+    let rest := (s.drop 1).toString
+    match s.front, rest.toNat? with
+    | 'A', some n => some (some (0, n))
+    | 'B', some n => some (some (1, n))
+    | _, _ => none
+
+def parseVis (s : String) : Option ParCache.Vis := do
+  let i ← ((s.drop 1).toString).toNat?
+  match s.front with
+  | 'c' => some (.call i)
+  | 'f' => some (.frun i)
+  | 'r' => some (.ret i)
+  | _ => none
+
+def parseEv (s : String) : Option ClientTrace.Ev :=
+  match s.splitOn "." with
+  | ["r", t, v] => do some (.rcfg (← t.toNat?) (← parseHead v))
+  | ["w", t, o, n, k] => do
+      let okk ← (if k == "o" then some true else if k == "c" then some false else none)
+      some (.wcfg (← t.toNat?) (← parseHead o) (← parseHead n) okk)
+  | ["s", t, a, b] => do some (.sec (← t.toNat?) (← parseHead a) (← parseHead b))
+  | ["e", t, k] => do some (.fin (← t.toNat?) (← k.toNat?))
+  | ["b", t] => do some (.beg (← t.toNat?))
+  | _ => none
+
+def parseThread (s : String) : Option (Nat × Option ClientLatest.Head × Bool) :=
+  match s.splitOn ":" with
+  | [c, h, p] => do some (← c.toNat?, ← parseHead h, p == "1")
+  | _ => none
+
+def showVerdict : Option Nat → String
+  | none => "ok"
+  | some n => s!"reject {n}"
+
 def handle : Handler
+  | "pctrace", [keys, events] => do
+      let ks ← natList keys
+      let evs ← (listOf events).mapM parseVis
+      let key : Nat → Nat := fun i => ks.getD i 0
+      some (showVerdict (ParCache.accepts (List.range ks.length) ks.eraseDups key evs))
+  | "trace", [p, hostile, c0, threads, events] => do
+      let p ← p.toNat?
+      let c0 ← parseHead c0
+      let ths ← (listOf threads).mapM parseThread
+      let evs ← (listOf events).mapM parseEv
+      let ncl := (ths.map (·.1)).foldl max 0 + 1
+      let w : ClientTrace.World :=
+        { p := p, hostile := hostile == "1", nth := ths.length, ncl := ncl,
+          cl := fun t => (ths.getD t (0, none, false)).1,
+          presented := fun t => (ths.getD t (0, none, false)).2.1,
+          priv := fun t => (ths.getD t (0, none, false)).2.2 }
+      some (showVerdict (ClientTrace.check w c0 evs))
   | _, _ => none
 
 end ModVerif.Drv.Client
